@@ -2,6 +2,7 @@ package main
 
 import (
 	"fmt"
+	"go/token"
 	"go/types"
 	"strings"
 
@@ -295,6 +296,12 @@ func cacheKeyInjective(c *Ctx, rule string) {
 		c.Undecided(rule, fnName(serve)+"|get", serve.Pos(), "no lru.Get found")
 		return
 	}
+	if n, desc, isStruct := structKeyComponents(get.Call.Args[1]); isStruct {
+		// a comparable struct used as the map key: the components are compared field by field, nothing is concatenated
+		c.Check(rule, fnName(serve)+"|key-is-prefix-decodable", true, get.Pos(), "struct key, compared field by field: "+desc)
+		c.Check(rule, fnName(serve)+"|key-has-4-components", n >= 4, get.Pos(), fmt.Sprintf("%d fields set from the query (location, type, class, name)", n))
+		return
+	}
 	toks, how, ok := keyTokens(c, get.Call.Args[1], 0)
 	if !ok {
 		c.Undecided(rule, fnName(serve)+"|key-form", get.Pos(), how)
@@ -307,4 +314,75 @@ func cacheKeyInjective(c *Ctx, rule string) {
 	inj, why := keyInjective(toks)
 	c.Check(rule, fnName(serve)+"|key-is-prefix-decodable", inj, get.Pos(), fmt.Sprintf("%s: %s %s", how, strings.Join(ts, " "), why))
 	c.Check(rule, fnName(serve)+"|key-has-4-components", len(toks) >= 4, get.Pos(), fmt.Sprintf("%d components (location, type, class, name)", len(toks)))
+}
+
+// structKeyComponents recognises a cache key that is a struct value built in a local (or a composite literal): it
+// returns the number of fields of plain comparable type (numbers, strings, arrays of those) that are stored from a
+// non-constant value. ok=false if v is not such a struct or any field has another type (pointers and interfaces
+// compare by identity / dynamic type, which is not what the key promises).
+func structKeyComponents(v ssa.Value) (int, string, bool) {
+	v = unwrap(v)
+	st, ok := v.Type().Underlying().(*types.Struct)
+	if !ok {
+		return 0, "", false
+	}
+	var plain func(t types.Type) bool
+	plain = func(t types.Type) bool {
+		switch u := t.Underlying().(type) {
+		case *types.Basic:
+			return u.Info()&(types.IsInteger|types.IsString|types.IsBoolean) != 0
+		case *types.Array:
+			return plain(u.Elem())
+		}
+		return false
+	}
+	for i := 0; i < st.NumFields(); i++ {
+		if !plain(st.Field(i).Type()) {
+			return 0, "", false
+		}
+	}
+	ld, ok := v.(*ssa.UnOp)
+	if !ok || ld.Op != token.MUL {
+		return 0, "", false
+	}
+	al, ok := ld.X.(*ssa.Alloc)
+	if !ok || al.Referrers() == nil {
+		return 0, "", false
+	}
+	set := map[int]bool{}
+	var walkStores func(addr ssa.Value)
+	walkStores = func(addr ssa.Value) {
+		for _, r := range *addr.Referrers() {
+			switch x := r.(type) {
+			case *ssa.FieldAddr:
+				if x.X != addr || x.Referrers() == nil {
+					continue
+				}
+				for _, rr := range *x.Referrers() {
+					if s, isS := rr.(*ssa.Store); isS && s.Addr == x {
+						if _, isK := unwrap(s.Val).(*ssa.Const); !isK {
+							set[x.Field] = true
+						}
+					}
+				}
+			case *ssa.Store:
+				// whole-struct store: cacheKey = T{...} (a load of a composite literal)
+				if x.Addr == addr {
+					if l, isL := unwrap(x.Val).(*ssa.UnOp); isL && l.Op == token.MUL {
+						if a2, isA := l.X.(*ssa.Alloc); isA && a2 != al && a2.Referrers() != nil {
+							walkStores(a2)
+						}
+					}
+				}
+			}
+		}
+	}
+	walkStores(al)
+	var names []string
+	for i := 0; i < st.NumFields(); i++ {
+		if set[i] {
+			names = append(names, st.Field(i).Name())
+		}
+	}
+	return len(names), strings.Join(names, ", "), true
 }
